@@ -293,7 +293,11 @@ func genC09Shape(t *rapid.T) C09Case {
 	if h.Thorough() {
 		maxN = 20000
 	}
-	n := rapid.IntRange(1, maxN).Draw(t, "n")
+	// most cases are small (they explore the vocabulary x shape product); one in eight is large
+	n := rapid.IntRange(1, 60).Draw(t, "nSmall")
+	if rapid.IntRange(0, 7).Draw(t, "large") == 0 {
+		n = rapid.IntRange(1, maxN).Draw(t, "n")
+	}
 	vocab := []string{"samlp:Response", "saml:Assertion", "saml:EncryptedAssertion", "ds:Signature", "ds:SignedInfo", "ds:Reference", "ds:Transforms", "saml:Advice", "samlp:Extensions", "xenc:EncryptedData", "x"}
 	tag := rapid.SampledFrom(vocab).Draw(t, "tag")
 	decl := ` xmlns:samlp="urn:oasis:names:tc:SAML:2.0:protocol" xmlns:saml="urn:oasis:names:tc:SAML:2.0:assertion" xmlns:ds="http://www.w3.org/2000/09/xmldsig#" xmlns:xenc="http://www.w3.org/2001/04/xmlenc#"`
